@@ -229,6 +229,10 @@ pub fn pe(e: &E, ind: usize) -> String {
         E::Lambda(ps_, b) => format!("|{}| {}", if ps_.is_empty() { " ".to_string() } else { ps_.join(",") }, pa(b, ind)),
         E::Tuple(es) => format!("({})", es.iter().map(|a| pe(a, ind)).collect::<Vec<_>>().join(", ")),
         E::Proj(a, i) => format!("{}.{i}", pa(a, ind)),
+        // a first field named "<-" holds the record being updated: `{base <- a = e, ..}`
+        E::Record(fs) if fs.first().map(|(k, _)| k == "<-").unwrap_or(false) => {
+            format!("{{{} <- {}}}", pe(&fs[0].1, ind), fs[1..].iter().map(|(k, v)| format!("{k} = {}", pe(v, ind))).collect::<Vec<_>>().join(", "))
+        }
         E::Record(fs) => format!("{{{}}}", fs.iter().map(|(k, v)| format!("{k} = {}", pe(v, ind))).collect::<Vec<_>>().join(", ")),
         E::Field(a, f) => format!("{}.{f}", pa(a, ind)),
         E::Mem(a, _) => format!("mem({})", pe(a, ind)),
@@ -650,8 +654,22 @@ impl<'p> Interp<'p> {
                         }
                         S::Assign(n, e) => {
                             let v = self.eval(e, env, node, selfv)?;
-                            let c = env.get(n).ok_or_else(|| EvalErr::Bug(format!("assign to unbound {n}")))?;
-                            *c.borrow_mut() = v;
+                            // `r.f = e` assigns one field of the record held by r
+                            let (head, field) = match n.split_once('.') {
+                                Some((h, f)) => (h, Some(f)),
+                                None => (n.as_str(), None),
+                            };
+                            let c = env.get(head).ok_or_else(|| EvalErr::Bug(format!("assign to unbound {n}")))?;
+                            match field {
+                                None => *c.borrow_mut() = v,
+                                Some(f) => match &mut *c.borrow_mut() {
+                                    V::R(fs) => match fs.iter_mut().find(|(k, _)| k == f) {
+                                        Some(slot) => slot.1 = v,
+                                        None => return Err(EvalErr::Bug(format!("no field {f} to assign"))),
+                                    },
+                                    other => return Err(EvalErr::Bug(format!("field assignment to {other:?}"))),
+                                },
+                            }
                         }
                         S::Expr(e) => {
                             last = self.eval(e, env, node, selfv)?;
@@ -683,6 +701,21 @@ impl<'p> Interp<'p> {
                 V::T(vs) if *i < vs.len() => vs[*i].clone(),
                 other => return Err(EvalErr::Bug(format!("projection .{i} of {other:?}"))),
             },
+            E::Record(fs) if fs.first().map(|(k, _)| k == "<-").unwrap_or(false) => {
+                // record update: a copy of the base with the named fields replaced (values evaluated in source order)
+                let mut vs = match self.eval(&fs[0].1, env, node, selfv)? {
+                    V::R(vs) => vs,
+                    other => return Err(EvalErr::Bug(format!("record update of {other:?}"))),
+                };
+                for (k, a) in &fs[1..] {
+                    let v = self.eval(a, env, node, selfv)?;
+                    match vs.iter_mut().find(|(n, _)| n == k) {
+                        Some(slot) => slot.1 = v,
+                        None => return Err(EvalErr::Bug(format!("record update: no field {k}"))),
+                    }
+                }
+                V::R(vs)
+            }
             E::Record(fs) => {
                 let mut vs = vec![];
                 for (k, a) in fs {
